@@ -798,6 +798,48 @@ impl<'c, 'a> RandGen<'c, 'a> {
     }
 }
 
+/// Wide patterns: 8..37 capture groups in a row (two-digit group numbers, save slots beyond 64), wrapped in an atomic
+/// group / counted repeat / look-ahead / possessive repeat, followed by a tail that reads a random group back.
+pub fn decode_wide(bytes: &[u8]) -> Node {
+    let mut d = Dec::new(bytes);
+    let k = 8 + d.below(30);
+    let mut units = vec![];
+    for _ in 0..k {
+        units.push(match d.below(10) {
+            0..=3 => Group(bx(Lit('a'))),
+            4..=5 => Group(bx(Lit('b'))),
+            6 => Group(bx(Alt(vec![Lit('a'), Lit('b')]))),
+            7 => Repeat(bx(Group(bx(Lit('b')))), 0, Some(1), Q::Greedy),
+            8 => Group(bx(Any)),
+            _ => Group(bx(Repeat(bx(Lit('a')), 0, Some(1), Q::Lazy))),
+        });
+    }
+    let g = 1 + d.below(k);
+    let tail = match d.below(6) {
+        0 | 1 => Backref(g),
+        2 => Look(bx(Backref(g)), false, true),
+        3 => Lit('c'),
+        4 => cat(vec![Look(bx(Backref(g)), false, false), Any]),
+        _ => Empty,
+    };
+    let body = Concat(units);
+    match d.below(6) {
+        0 => cat(vec![Atomic(bx(body)), tail]),
+        1 => cat(vec![Repeat(bx(body), 2, Some(2), Q::Greedy), tail]),
+        2 => cat(vec![Look(bx(body), false, false), tail]),
+        3 => cat(vec![body, tail]),
+        4 => cat(vec![Repeat(bx(body), 1, Some(2), Q::Poss), tail]),
+        _ => cat(vec![Atomic(bx(cat(vec![body, Look(bx(Lit('c')), false, true)]))), tail]),
+    }
+}
+
+pub fn wide_texts() -> Vec<String> {
+    let mut t: Vec<String> = vec!["a".repeat(40), "ab".repeat(20), "abba".repeat(10), "aab".repeat(14), "b".repeat(38), "a".repeat(12) + "c", "ab".repeat(8) + "c", "aaaaaaaab".repeat(5)];
+    t.push("a".repeat(9));
+    t.push("ab".repeat(37));
+    t
+}
+
 pub fn decode_pattern(cfg: &RandCfg, bytes: &[u8]) -> Node {
     let mut g = RandGen::new(cfg, bytes);
     g.node(cfg.max_nodes)
